@@ -467,6 +467,24 @@ for val in (good, '', 0, 0.0, False):
     if out == 'rejected' and e.attributes: bad = 1
     if out not in ('ok', 'rejected'): bad = 1
     if val is good and out != 'ok': bad = 1
+# validation must not depend on what was validated before (on this or another element): values that compare equal to an
+# accepted one but have another type / are invalid must still be judged on their own
+for first, second in ((1, True), (1, 1.0), (0, False), (good, good)):
+    try:
+        a = {mk}; {'setattr(a, key, first)' if w['surface'] != 'dict' else 'a._set_attributes({key: first})'}
+    except Exception:
+        continue
+    fresh_verdict = None
+    import subprocess
+    code = "import sys; sys.path.insert(0, %r); import musicxml.xmlelement.xmlelement as X\ne = %s\ntry:\n    e._set_attributes({{%r: %r}}); print('ok')\nexcept Exception as ex: print(type(ex).__name__)" % (os.environ.get('MUSICXML_ROOT', '/repo'), {mk!r}, key, second)
+    fresh_verdict = subprocess.run([sys.executable, '-W', 'ignore', '-c', code], capture_output=True, text=True).stdout.strip()
+    b = {mk}
+    try:
+        {'setattr(b, key, second)' if w['surface'] != 'dict' else 'b._set_attributes({key: second})'}; now = 'ok'
+    except Exception as ex:
+        now = type(ex).__name__
+    if now != fresh_verdict:
+        print('after accepting', repr(first), 'the value', repr(second), 'gets verdict', now, 'but', fresh_verdict, 'in a fresh process'); bad = 1
 print({o['detail']!r})
 sys.exit(bad)
 '''
